@@ -31,9 +31,29 @@ DOC_A = '<a:parentA xmlns:a="urn:a"><a:c><a:p>1</a:p></a:c></a:parentA>'
 DOC_SPECIAL_ROOT = '<special xmlns="urn:t"><v>s</v><extra>x</extra></special>'
 
 
+def _forward_models():
+    """Two classes whose annotations only resolve through the serializer's globalns (they are not module globals)."""
+    from dataclasses import dataclass, field
+    from typing import Optional
+
+    @dataclass
+    class FwdInner:
+        x: Optional[str] = field(default=None, metadata={"type": "Attribute"})
+
+    @dataclass
+    class FwdOuter:
+        inner: Optional["FwdInner"] = field(default=None, metadata={"type": "Element"})
+
+    return FwdOuter, FwdInner
+
+
+FWD_OUTER, FWD_INNER = _forward_models()
+
+
 class Shared:
     def __init__(self):
         self.ctx = XmlContext()
+        self.fwd_serializer = XmlSerializer(context=self.ctx, config=SerializerConfig(xml_declaration=False, globalns={"FwdInner": FWD_INNER}), writer=XmlEventWriter)
         self.parser = XmlParser(context=self.ctx, handler=XmlEventHandler)
         self.serializer = XmlSerializer(context=self.ctx, config=SerializerConfig(xml_declaration=False), writer=XmlEventWriter)
         self.decoder = DictDecoder(context=self.ctx)
@@ -55,6 +75,19 @@ def op_decode_wild(s): return s.decoder.decode({"item": None, "other": [{"v": "w
 def op_parse_unknown_lenient(s): return s.lenient.from_string('<doc xmlns="urn:t"><item><v>a</v><nope>1</nope></item><zzz/></doc>', M.Doc)
 
 
+def op_decode_union(s): return s.decoder.decode({"u": {"y": 2}, "count": 3}, M.UnionDoc)
+
+
+def op_decode_bad_value(s):
+    # lenient by default: a value that does not convert is kept as it is (with a warning)
+    with warnings.catch_warnings():
+        warnings.simplefilter("ignore")
+        return s.decoder.decode({"item": {"v": "a", "n": "oops"}, "other": []}, M.Doc)
+
+
+def op_serialize_fwd(s): return s.fwd_serializer.render(FWD_OUTER(inner=FWD_INNER(x="q")))
+
+
 def op_import_then_untyped(s):
     """A module appears (len(sys.modules) changes), then a lookup without target class."""
     name = f"vmc_dummy_{len(_DUMMIES)}"
@@ -70,6 +103,7 @@ OPS = {
     "parse_special_root": op_parse_special_root, "serialize": op_serialize, "serialize_plain": op_serialize_plain, "decode": op_decode,
     "parse_a": op_parse_a, "import_then_untyped": op_import_then_untyped,
     "decode_untyped": op_decode_untyped, "decode_wild": op_decode_wild, "parse_unknown_lenient": op_parse_unknown_lenient,
+    "decode_union": op_decode_union, "decode_bad_value": op_decode_bad_value, "serialize_fwd": op_serialize_fwd,
 }
 
 # harnesses forced to collide (threads x operation lists); warm = operations run before the threads start
@@ -87,6 +121,12 @@ HARNESS_SETS = {
     # iteration over the type index / cached metadata in one thread while the other looks up names that are not there
     "warm-decode-untyped-vs-wild": dict(warm=["parse_untyped"], threads=[["decode_untyped"], ["parse_wild"]]),
     "warm-decode-wild-vs-unknown": dict(warm=["parse_typed"], threads=[["decode_wild"], ["parse_unknown_lenient"]]),
+    # one decoder: a best-match (union) decode next to a lenient decode of a value that does not convert
+    "cold-decode-union-vs-bad-value": dict(warm=[], threads=[["decode_union"], ["decode_bad_value"]]),
+    # two serializers of one class on a cold context (per-class metadata is built and memoised on first use)
+    "cold-serialize-x2": dict(warm=[], threads=[["serialize"], ["serialize_plain"]]),
+    # a serializer that resolves annotations through its own globalns next to ordinary use of the same context
+    "cold-serialize-globalns-vs-parse": dict(warm=[], threads=[["serialize_fwd"], ["parse_a"]]),
 }
 HARNESS_SETS_3 = {
     "cold-3-untyped-typed-xsi": dict(warm=[], threads=[["parse_untyped"], ["parse_typed"], ["parse_xsi"]]),
@@ -100,7 +140,7 @@ _EXPECT: dict = {}
 
 def _make_roots():
     sh = Shared()
-    return {"canon": {"ctx": sh.ctx, "parser": sh.parser, "serializer": sh.serializer, "decoder": sh.decoder}, "arg": sh}
+    return {"canon": {"ctx": sh.ctx, "parser": sh.parser, "serializer": sh.serializer, "decoder": sh.decoder, "fwd_serializer": sh.fwd_serializer}, "arg": sh}
 
 
 def _profile_one(op: str):
@@ -212,8 +252,10 @@ def h_sched(ch: Chooser, name: str):
         r = call(OPS[op], shared)
         if not res_equal(r, expected(op)):
             return dict(ok=False, case=case, bucket=f"corrupted-after/{op}", detail=f"after the run, {op} gives {r[1]!r}; schedule {case['schedule']}")
+    hz = getattr(sched, "horizon_hits", 0)
+    sched.horizon_hits = 0
     return dict(ok=True, case=case, obs="".join(map(str, trace)), nontrivial=(name, tuple(trace)) if switches else None,
-                states=[(name, tuple(trace[:i])) for i in range(0)], transitions=0, counters={"scheduling_points": len(trace)})
+                states=[(name, tuple(trace[:i])) for i in range(0)], transitions=0, counters={"scheduling_points": len(trace), "schedules_cut_at_horizon": hz})
 
 
 def task(t):
